@@ -28,6 +28,27 @@ macro_rules! common {
             op!("const_min", 2, Aux::None, spec::min, |r, _x| v(r[0].min(r[1]))),
             op!("const_max", 2, Aux::None, spec::max, |r, _x| v(r[0].max(r[1]))),
             op!("const_clamp", 3, Aux::None, spec::clamp, |r, _x| v(r[0].clamp(r[1], r[2]))),
+            // Hash / Eq coherence: equality <=> identical digit arrays; equal values feed the same byte
+            // stream to a Hasher (and with std's DefaultHasher give the same digest)
+            op!("eq_iff_same_digits", 2, Aux::None, spec::always_true, |r, _x| bo((r[0] == r[1]) == (vengine::Subj::le(&r[0]) == vengine::Subj::le(&r[1])))),
+            op!("equal_values_hash_equally", 2, Aux::None, spec::always_true, |r, _x| {
+                use std::hash::{Hash, Hasher};
+                let same_stream = vengine::hash_stream(&r[0]) == vengine::hash_stream(&r[1]);
+                let digest = |x: &_| { let mut h = std::collections::hash_map::DefaultHasher::new(); Hash::hash(x, &mut h); h.finish() };
+                bo(r[0] != r[1] || (same_stream && digest(&r[0]) == digest(&r[1])))
+            }),
+            // the same value reached by different routes (arithmetic, parse(print), digit round trip) hashes equally
+            op!("recomputed_value_hashes_equally", 1, Aux::None, spec::always_true, |r, _x| {
+                let a = r[0];
+                let b = a.wrapping_add(a).wrapping_sub(a);
+                let mut c = a;
+                if let Ok(p) = format!("{}", a).parse() {
+                    c = p;
+                }
+                let d = !(!a);
+                let h = vengine::hash_stream(&a);
+                bo(b == a && c == a && d == a && vengine::hash_stream(&b) == h && vengine::hash_stream(&c) == h && vengine::hash_stream(&d) == h)
+            }),
         ]
     };
 }
